@@ -210,7 +210,7 @@ theorem dlu_handleFind (s : Stack) (e : SDEntry) (a : Addr) (mc : Bool) (hi : DL
   unfold handleFind; simp only []
   split; exact hi
   split
-  · exact dlu_foldl _ (fun X i hX => dlu_callLater _ _ _ rfl hX) _ _ (dlu_draw _ _ _ hi)
+  · exact dlu_foldl _ (fun X i hX => dlu_callLater (X.logAnswer _ _ _) _ _ rfl hX) _ _ (dlu_draw _ _ _ hi)
   · exact dlu_foldl _ (fun X i hX => dlu_callSoon X _ hX) _ _ hi
 
 theorem dlu_expiredSub (s : Stack) (i : Nat) (a : Addr) (k : SubKey) (hi : DLU s) : DLU (s.expiredSub i a k) := by
